@@ -613,6 +613,14 @@ def gen_cases(tier, seed):
         nsess = rng.choice([1, 1, 2, 3])
         plans.append({"kind": "e2e", "seed": seed * 7 + i, "level": level, "direction": d, "limits": lim, "sessions": nsess,
                       "same_user": rng.randint(1, nsess), "size": rng.choice([1000, 20000, 60000]), "block": rng.choice([512, 8192])})
+    # a limit of 0 is "no limit" at every level: same bytes, no delay
+    for level in levels:
+        for d in ("download", "upload"):
+            lim = levels[level](0, d)
+            if tier == "thorough":
+                lim.update(levels[level](0, "upload" if d == "download" else "download"))
+            plans.append({"kind": "e2e", "seed": seed * 7 + len(plans), "level": level, "direction": d, "limits": lim, "sessions": 1, "same_user": 1,
+                          "size": rng.choice([1000, 20000]), "block": rng.choice([512, 8192])})
     # many small transfers of one session: what one data connection leaves unpaid is owed by the next one
     for level in levels:
         for d in ("download", "upload"):
